@@ -371,7 +371,10 @@ class C14(CheckBase):
     def key(self, ctx, m):
         # the ORDER in which the held sessions were opened is part of the state: the library keeps all sessions of all tokens in one table, and what
         # happens to one token's sessions must not depend on where another token's sessions sit in it (merging both orders would explore only one)
-        return tuple((n, x.exists, x.so, x.user, tuple(sorted(p for p, d in x.objs.values())), x.held, x.restart_slot is not None) for n, x in sorted(m.tok.items())) + (tuple(t for _h, t in m.held),)
+        # ... and so are ALL token flags the library reports right now (PIN-count warnings left by failed attempts are state the model does not carry;
+        # merging a state with such a warning into one without would leave the continuations of the former unexplored)
+        flags = tuple((t, ctx.p.GetTokenInfo(m.slot[t]).get("flags")) for t in sorted(m.tok) if m.tok[t].exists and t in m.slot)
+        return tuple((n, x.exists, x.so, x.user, tuple(sorted(p for p, d in x.objs.values())), x.held, x.restart_slot is not None) for n, x in sorted(m.tok.items())) + (tuple(t for _h, t in m.held), flags)
 
     def died_sig(self, action, d):
         return "C14|%s|%r" % (action[0] if action else None, d.info)
